@@ -24,6 +24,49 @@ theorem cbor_roundtrip_exact (v : Cbor) (hwf : v.wf = true) : decodeAll v.encode
 theorem encode_injective (a b : Cbor) (ha : a.wf = true) (hb : b.wf = true) (h : a.encode = b.encode) : a = b :=
   encode_inj a b ha hb h
 
+
+/-! ### Decoder limits (finding: values above a limit are written and can never be read)
+
+`cbor_roundtrip` is about the decoder without resource limits. The real one refuses items with more
+than `maxArray` elements, `maxMap` pairs or `maxNest` nested arrays/maps/tags, while the encoder
+writes anything: the round trip holds exactly for the values within the limits. -/
+
+/-- Within the limits the limited decoder is the identity on encoded values … -/
+theorem limited_roundtrip (l : DecLimits) (v : Cbor) (hwf : v.wf = true) (h : v.within l l.maxNest = true) :
+    decodeAllLimited l v.encode = some v := by
+  simp [decodeAllLimited, decodeAll_encode v hwf, h]
+
+/-- … and above any of them it rejects what the encoder wrote (full statement `∀ v, decodeAllLimited l
+v.encode = some v` is false: `limits_witness`). -/
+theorem limited_rejects (l : DecLimits) (v : Cbor) (hwf : v.wf = true) (h : v.within l l.maxNest = false) :
+    decodeAllLimited l v.encode = none := by
+  simp [decodeAllLimited, decodeAll_encode v hwf, h]
+
+/-- Any map with more pairs than `maxMap`, any array with more elements than `maxArray`. -/
+theorem limited_rejects_big (l : DecLimits) :
+    (∀ kvs : List (Cbor × Cbor), (Cbor.map kvs).wf = true → l.maxMap < kvs.length →
+      decodeAllLimited l (Cbor.map kvs).encode = none) ∧
+    (∀ xs : List Cbor, (Cbor.array xs).wf = true → l.maxArray < xs.length →
+      decodeAllLimited l (Cbor.array xs).encode = none) := by
+  constructor
+  · intro kvs hwf h
+    apply limited_rejects l _ hwf
+    simp [Cbor.within]
+    intro _ h2; omega
+  · intro xs hwf h
+    apply limited_rejects l _ hwf
+    simp [Cbor.within]
+    intro _ h2; omega
+
+/-- Concrete witness with the library defaults juno runs with for maps and nesting: three nested
+arrays under a limit of two levels (the 33-level item the harness replays is the same shape). -/
+theorem limits_witness :
+    (Cbor.array [.array [.array [.uint 1]]]).wf = true ∧
+    (decodeAll (Cbor.array [.array [.array [.uint 1]]]).encode).isSome = true ∧
+    (decodeAllLimited ⟨10485760, 131072, 3⟩ (Cbor.array [.array [.array [.uint 1]]]).encode).isSome = true ∧
+    (decodeAllLimited ⟨10485760, 131072, 2⟩ (Cbor.array [.array [.array [.uint 1]]]).encode).isNone = true := by
+  decide
+
 /-! ## 2. The per-block blob of transactions and receipts
 
 `encT/decT`, `encR/decR` are the item codecs; the only thing assumed of them is that decoding
